@@ -405,6 +405,14 @@ func (am *AccountingManager) sendAccountingStop(session *AccountingSession, term
 		RemoteID:       session.RemoteID,
 	}
 
+	if am.hasPendingStart(session.SessionID) {
+		// The session's Start is still waiting for the server: the Stop must not
+		// overtake it, so it joins the queue behind it.
+		am.queuePendingRecord(req)
+		atomic.AddUint64(&am.stopFailed, 1)
+		return fmt.Errorf("accounting-start for session %s still queued", session.SessionID)
+	}
+
 	ctx, cancel := context.WithTimeout(am.ctx, 5*time.Second)
 	defer cancel()
 
@@ -600,8 +608,30 @@ func (am *AccountingManager) pendingRecordProcessor() {
 	}
 }
 
+// hasPendingStart reports whether the Accounting-Start of a session is still
+// in the retry queue
+func (am *AccountingManager) hasPendingStart(sessionID string) bool {
+	am.pendingMu.RLock()
+	defer am.pendingMu.RUnlock()
+	for _, r := range am.pendingRecords {
+		if r.Request != nil && r.Request.StatusType == AcctStatusStart && r.Request.SessionID == sessionID {
+			return true
+		}
+	}
+	return false
+}
+
 // processPendingRecord attempts to send a pending record
 func (am *AccountingManager) processPendingRecord(record *PendingAcctRecord) {
+	if record.Request.StatusType == AcctStatusStop && am.hasPendingStart(record.Request.SessionID) {
+		// Hold the Stop back until the session's Start has been delivered (or
+		// abandoned); this does not count as a retry.
+		am.pendingMu.Lock()
+		record.NextRetry = time.Now().Add(am.config.RetryBaseDelay)
+		am.pendingMu.Unlock()
+		return
+	}
+
 	ctx, cancel := context.WithTimeout(am.ctx, 5*time.Second)
 	defer cancel()
 
@@ -758,6 +788,12 @@ func (am *AccountingManager) sendAccountingStopSync(ctx context.Context, session
 		Class:          session.Class,
 	}
 
+	if am.hasPendingStart(session.SessionID) {
+		// Queue behind the session's Start (see sendAccountingStop)
+		am.queuePendingRecord(req)
+		return
+	}
+
 	verifPoint("drain:before-send")
 	if err := am.client.SendAccounting(ctx, req); err != nil {
 		am.logger.Warn("Failed to send Accounting-Stop during drain",
@@ -899,12 +935,16 @@ func (am *AccountingManager) persistPendingRecords() error {
 func (am *AccountingManager) recoverOrphanedSessions() error {
 	am.logger.Info("Checking for orphaned sessions")
 
+	// Queued records first: the Stop of an orphaned session has to wait for a
+	// Start of the same session that is still queued.
+	pendingErr := am.recoverPendingRecords()
+
 	// Recover persisted sessions
 	sessionsPath := filepath.Join(am.persistPath, "sessions")
 	entries, err := os.ReadDir(sessionsPath)
 	if err != nil {
 		if os.IsNotExist(err) {
-			return nil
+			return pendingErr
 		}
 		return err
 	}
@@ -952,12 +992,17 @@ func (am *AccountingManager) recoverOrphanedSessions() error {
 			Class:          session.Class,
 		}
 
-		ctx, cancel := context.WithTimeout(am.ctx, 5*time.Second)
-		verifPoint("recover:before-send")
-		if err := am.client.SendAccounting(ctx, req); err != nil {
+		if am.hasPendingStart(session.SessionID) {
+			// Never let the Stop overtake the session's queued Start
 			am.queuePendingRecord(req)
+		} else {
+			ctx, cancel := context.WithTimeout(am.ctx, 5*time.Second)
+			verifPoint("recover:before-send")
+			if err := am.client.SendAccounting(ctx, req); err != nil {
+				am.queuePendingRecord(req)
+			}
+			cancel()
 		}
-		cancel()
 
 		verifPoint("recover:after-send")
 		atomic.AddUint64(&am.orphanedRecovered, 1)
@@ -965,7 +1010,11 @@ func (am *AccountingManager) recoverOrphanedSessions() error {
 		verifPoint("recover:file-removed")
 	}
 
-	// Recover pending records
+	return pendingErr
+}
+
+// recoverPendingRecords loads the records a previous instance left queued
+func (am *AccountingManager) recoverPendingRecords() error {
 	am.recoverPendingRecordFiles()
 	pendingPath := filepath.Join(am.persistPath, "pending.json")
 	data, err := os.ReadFile(pendingPath)
